@@ -4,7 +4,7 @@
     byte-string fields.  Both the Go harness and this file follow the same field layout, so
     the OCaml driver contains no per-function glue at all. *)
 From Coq Require Import Strings.String.
-From PatVerif Require Import Base.GoSem Model.Quicwire Model.Codecs Model.BatchCodecs.
+From PatVerif Require Import Base.GoSem Model.Quicwire Model.Codecs Model.BatchCodecs Model.Pad.
 Open Scope N_scope.
 
 Definition nm (s : string) : list byte := list_byte_of_string s.
@@ -159,6 +159,19 @@ Definition dispatch_codecs (name : list byte) (a : list (list byte)) : option (l
   else if is name "enc_resps_typed" then Some [st_ok; enc_resps_typed (parse_typed a)]
   else None.
 
+(** * Padding *)
+Definition dispatch_pad (name : list byte) (a : list (list byte)) : option (list (list byte)) :=
+  if is name "pad" then Some [st_ok; pad (arg a 0)]
+  else if is name "unpad" then Some [st_ok; unpad (arg a 0)]
+  else if is name "wire_len" then Some [st_ok; nat8 (request_wire_len (N.to_nat (narg a 0)))]
+  else if is name "served" then Some [if served (arg a 0) (skipn 1 a) then st_ok else st_none]
+  else None.
+
+Definition first_some {A} (l : list (option A)) (d : A) : A :=
+  match List.find (fun o => match o with Some _ => true | None => false end) l with
+  | Some (Some r) => r | _ => d end.
+
 Definition dispatch (name : list byte) (a : list (list byte)) : list (list byte) :=
   match dispatch_quicwire name a with Some r => r | None =>
-  match dispatch_codecs name a with Some r => r | None => [st_unknown] end end.
+  match dispatch_codecs name a with Some r => r | None =>
+  match dispatch_pad name a with Some r => r | None => [st_unknown] end end end.
